@@ -22,13 +22,14 @@ def emitCreateOrAdd (s : St) (m : Mode) (cands : List String) : List ModeEvent :
   | .ok (some m') => [.add m']
   | _ => []
 
-def emitUpdate (s : St) (m : Mode) (mask : Option Mask) : List ModeEvent :=
-  match (updateMode s m mask).2, find s m.id with
+def emitUpdate (s : St) (m : Mode) (mask : Option Mask) (w : WOpts) : List ModeEvent :=
+  match (updateMode s m mask w).2, find s m.id with
   | .ok (some new), some old => if old = new then [] else [.update old new]
+  | .ok (some new), none => [.add new]                       -- an upsert that created the record
   | _, _ => []
 
-def emitDelete (s : St) (id : String) (am : Bool) : List ModeEvent :=
-  match (deleteMode s id am).2, find s id with
+def emitDelete (s : St) (id : String) (am : Bool) (ex : Option Mode) : List ModeEvent :=
+  match (deleteMode s id am ex).2, find s id with
   | .ok _, some old => [.remove old]
   | _, _ => []
 
@@ -36,11 +37,11 @@ def emitDelete (s : St) (id : String) (am : Bool) : List ModeEvent :=
 def modeEvents (s : St) : Op → List ModeEvent
   | .create m cands => if m.id ≠ "" then [] else emitCreateOrAdd s m cands
   | .add m => if m.id = "" then [] else emitCreateOrAdd s m []
-  | .update m mask => emitUpdate s m mask
-  | .delete id am => emitDelete s id am
+  | .update m mask w => emitUpdate s m mask w
+  | .delete id am ex => emitDelete s id am ex
   | .sCreate m cands => if m.id ≠ "" then [] else emitCreateOrAdd s m cands
-  | .sUpdate m mask => if m.id = "" then [] else emitUpdate s m mask
-  | .sDelete id am => if id = "" then [] else emitDelete s id am
+  | .sUpdate m mask => if m.id = "" then [] else emitUpdate s m mask {}
+  | .sDelete id am => if id = "" then [] else emitDelete s id am none
   | _ => []
 
 /-- the operations that call `activeMode.Set` -/
@@ -94,9 +95,9 @@ theorem emitCreateOrAdd_view (s : St) (m : Mode) (cands : List String) :
       · simp [hf]
       · simp [hf, applyEvent]
 
-theorem emitUpdate_view (s : St) (hi : Inv p s) (m : Mode) (mask : Option Mask) :
-    (emitUpdate s m mask).foldl applyEvent s.modes = (updateMode s m mask).1.modes ∧
-    (emitUpdate s m mask).length ≤ 1 := by
+theorem emitUpdate_view (s : St) (hi : Inv p s) (m : Mode) (mask : Option Mask) (w : WOpts) :
+    (emitUpdate s m mask w).foldl applyEvent s.modes = (updateMode s m mask w).1.modes ∧
+    (emitUpdate s m mask w).length ≤ 1 := by
   unfold emitUpdate updateMode
   by_cases hg : m.normal = true ∧ writesNormal mask = true ∧ otherNormal s m.id = true
   · simp only [hg, and_self, if_true]
@@ -107,17 +108,29 @@ theorem emitUpdate_view (s : St) (hi : Inv p s) (m : Mode) (mask : Option Mask) 
       cases find s m.id <;> simp
     · simp only [hinv, Bool.false_eq_true, if_false]
       cases hold : find s m.id with
-      | none => simp
+      | none =>
+        simp only
+        by_cases hc : w.createIfAbsent = true
+        · by_cases he : expectedFails w.expected Mode.blank = true
+          · simp [hc, he]
+          · simp [hc, he, applyEvent]
+        · simp [hc]
       | some old =>
         obtain ⟨hmem, _⟩ := find_some hold
-        by_cases he : old = mergeMode old m mask
-        · simp only [← he, if_true, List.foldl_nil, List.length_nil, Nat.zero_le, and_true]
-          exact (replaceMode_self hi.nodup hmem).symm
-        · simp [he, applyEvent]
+        simp only
+        by_cases ha : w.expectAbsent = true
+        · simp [ha]
+        · by_cases he : expectedFails w.expected old = true
+          · simp [ha, he]
+          · simp only [ha, he, Bool.false_eq_true, if_false]
+            by_cases heq : old = mergeMode old m (maskWithId mask)
+            · simp only [← heq, if_true, List.foldl_nil, List.length_nil, Nat.zero_le, and_true]
+              exact (replaceMode_self hi.nodup hmem).symm
+            · simp [heq, applyEvent]
 
-theorem emitDelete_view (s : St) (id : String) (am : Bool) :
-    (emitDelete s id am).foldl applyEvent s.modes = (deleteMode s id am).1.modes ∧
-    (emitDelete s id am).length ≤ 1 := by
+theorem emitDelete_view (s : St) (id : String) (am : Bool) (ex : Option Mode) :
+    (emitDelete s id am ex).foldl applyEvent s.modes = (deleteMode s id am ex).1.modes ∧
+    (emitDelete s id am ex).length ≤ 1 := by
   unfold emitDelete deleteMode
   by_cases ha : id = s.active.id
   · simp only [ha, if_true]
@@ -127,7 +140,9 @@ theorem emitDelete_view (s : St) (id : String) (am : Bool) :
     | none => cases am <;> simp
     | some old =>
       obtain ⟨_, hid⟩ := find_some hf
-      simp [applyEvent, hid]
+      by_cases he : expectedFails ex old = true
+      · simp [he]
+      · simp [he, applyEvent, hid]
 
 /-- One operation: folding its events into a view that equals the modes gives the modes afterwards, and
 there is at most one event. -/
@@ -149,8 +164,8 @@ theorem modeEvents_view (s : St) (hi : Inv p s) (op : Op) :
       rw [this.1]
       cases hr : createOrAdd s m [] with
       | mk s' r => cases r <;> rfl
-  | update m mask => exact emitUpdate_view s hi m mask
-  | delete id am => exact emitDelete_view s id am
+  | update m mask w => exact emitUpdate_view s hi m mask w
+  | delete id am ex => exact emitDelete_view s id am ex
   | setActive m =>
     simp only [modeEvents, step, setActive, List.foldl_nil, List.length_nil, Nat.zero_le, and_true]
     cases find s m.id <;> rfl
@@ -172,16 +187,16 @@ theorem modeEvents_view (s : St) (hi : Inv p s) (op : Op) :
     simp only [modeEvents, step]
     by_cases h : m.id = ""
     · simp [h]
-    · simp only [h, if_false]; exact emitUpdate_view s hi m mask
+    · simp only [h, if_false]; exact emitUpdate_view s hi m mask {}
   | sDelete id am =>
     simp only [modeEvents, step]
     by_cases h : id = ""
     · simp [h]
     · simp only [h, if_false]
-      have := emitDelete_view s id am
+      have := emitDelete_view s id am none
       refine ⟨?_, this.2⟩
       rw [this.1]
-      cases hr : deleteMode s id am with
+      cases hr : deleteMode s id am none with
       | mk s' r => cases r <;> rfl
   | sChangeActive id now =>
     simp only [modeEvents, step]
@@ -257,8 +272,8 @@ theorem setsActive_changed (s : St) (op : Op) (h1 : setsActive op = true) (h2 : 
     | some n => simp only [hn] at h2 ⊢; exact changeActive_changed h2
   | create _ _ => simp [setsActive] at h1
   | add _ => simp [setsActive] at h1
-  | update _ _ => simp [setsActive] at h1
-  | delete _ _ => simp [setsActive] at h1
+  | update _ _ _ => simp [setsActive] at h1
+  | delete _ _ _ => simp [setsActive] at h1
   | findMode _ => simp [setsActive] at h1
   | sCreate _ _ => simp [setsActive] at h1
   | sUpdate _ _ => simp [setsActive] at h1
